@@ -265,7 +265,7 @@ func c10Canary(c *Ctx, cs *c10Case, after string) bool {
 }
 
 func c10Run(c *Ctx, i int, r *gen.R) {
-	spec := r.Table(gen.TableOpts{MaxCols: 4, MaxRows: 5, ZeroHeaderOK: true, MinCols: 0, Noise: gen.NoiseSkipable | gen.NoiseAlign,
+	spec := r.Table(gen.TableOpts{MaxCols: 4, MaxRows: 5, ZeroHeaderOK: true, MinCols: 0, Noise: gen.NoiseSkipable | gen.NoiseAlign | gen.NoiseCallbacks,
 		Item: func(r *gen.R) gen.ItemSpec {
 			switch r.Intn(12) {
 			case 0:
@@ -388,6 +388,7 @@ func init() {
 		},
 		Phases: []Phase{
 			{Name: "random tables x creation paths x targets x routes", N: Fixed(150, 20000), Run: c10Run},
+			{Name: "6 programs linking only one import set each (auto, csv, html, json, markdown, texttable) x 3 tables: same bytes as the fully linked harness", Exhaustive: true, N: Fixed(18, 18), Run: c10Min},
 		},
 	})
 }
